@@ -157,7 +157,8 @@ W = {'A': ('container', 'inf L', [('water', '2 L'), ('nacl', '0.2 mol'), ('lipas
      'L': ('container', 'inf L', [('dmso', '1.5 L')]),
      'D': ('container', 'inf L', []), 'K': ('container', '250 mL', [('water', '20 mL'), ('nacl', '10 mmol')]),
      'R': ('plate', '1 mL', 2, 2), 'R2': ('plate', '1 mL', 2, 2)}
-PLATE_SEED = [T('K', 'R', '300 uL'), T('L', ['R', "(1, slice(None))"], '50 uL'), T('K', ['R2', "(slice(None), 1)"], '120 uL')]
+PLATE_SEED = [T('K', 'R', '300 uL'), T('L', ['R', "(1, slice(None))"], '50 uL'), T('K', ['R2', "(slice(None), 1)"], '120 uL'),
+              T('R', 'R2', '10 uL'), T(['R2', "(slice(None), 1)"], ['R', "(slice(None), 1)"], '5 uL')]      # earlier stamps both ways
 
 
 def direct_cases():
@@ -192,7 +193,7 @@ def direct_cases():
         acts += [T('K', 'R', q), T('K', ['R', "(1, 1)"], q), T('R', 'D', q), T(['R', "(slice(None), 2)"], 'D', q),
                  T(['R', "(1, 1)"], ['R', "(2, slice(None))"], q), T(['R', "(1, slice(None))"], ['R', "(2, 2)"], q),
                  T(['R', "(1, slice(None))"], ['R', "(2, slice(None))"], q), T('R', 'R2', q), T(['R', "'A:1'"], 'R2', q),
-                 T(['R', "(slice(None), 1)"], ['R2', "[(1, 2)]"], q)]
+                 T(['R', "(slice(None), 1)"], ['R2', "[(1, 2)]"], q), T('R2', 'R', q), T(['R2', "(slice(None), 1)"], ['R', "(slice(None), 1)"], q)]
     for q in ('600 uL', '0.9 g'):
         acts += [{'op': 'fill_to', 'obj': 'R', 'solvent': 'water', 'q': q}, {'op': 'fill_to', 'obj': ['R', "(2, slice(None))"],
                                                                                'solvent': 'dmso', 'q': q}]
@@ -244,8 +245,12 @@ def _direct(ai):
         vs_all, ntok = [], 0
         for wb, wa in zip(before, after):
             ib, ia = wb.instructions or '', wa.instructions or ''
-            if ia == ib or not ia.startswith(ib):
+            if ia == ib:
                 continue
+            if not ia.startswith(ib):
+                vs_all = [V(f"instructions | instruction-history-rewritten | well.instructions,{op}",
+                            f"{e1.act_str(act)}: an EARLIER instruction line of {wa.name} was changed: {ib!r} became {ia!r}", case)]
+                break
             vs, k = check_text(pp, ia[len(ib):], cands, wnames, f"{e1.act_str(act)}: instructions of {wa.name}", case,
                                f"well.instructions,{op}")
             ntok += k
@@ -344,8 +349,13 @@ def _program(prog_idx):
             continue
         for wb, wa in zip(ob.wells.flatten(), oa.wells.flatten()):
             ib, ia = wb.instructions or '', wa.instructions or ''
-            if ia == ib or not ia.startswith(ib):
+            if ia == ib:
                 continue
+            if not ia.startswith(ib):
+                out.append(V(f"instructions | instruction-history-rewritten | well.instructions,{e2.step_kind(act)}",
+                             f"instructions of {n}/{wa.name} after step {i} of [{' ; '.join(e1.act_str(a) for a in program)}]: an "
+                             f"EARLIER line was changed: {ib!r} became {ia!r}", case))
+                break
             vs, k = check_text(pp, ia[len(ib):], cands, wnames, f"instructions of {n}/{wa.name} after step {i} of "
                                f"[{' ; '.join(e1.act_str(a) for a in program)}]", case, f"well.instructions,{e2.step_kind(act)}")
             ntok += k
